@@ -14,6 +14,9 @@ import (
 // ZZMemQueue builds the real memory queue (set by the entry package zzc13).
 var ZZMemQueue func(max int, n queue.Notifier) queue.Store
 
+// ZZFifoAlias is topicalias/fifo.New (set by the entry package zzc13).
+var ZZFifoAlias NewTopicAliasManager
+
 type zzDropNotifier struct {
 	dropped  []*queue.Elem
 	reasons  []error
@@ -125,4 +128,57 @@ func ZZC13SizeOutResume() {
 	default:
 	}
 	zzrt.Cover("resumed")
+}
+
+// ZZC13AliasSize: queue (size test) -> pollNewMessages -> writeLoop (topic alias rewrite)
+// -> packet writer, all real, on a connection that declared Maximum Packet Size A and a
+// Topic Alias Maximum: no PUBLISH on the wire is longer than A, whatever the alias
+// manager decides (new alias sent WITH the topic name, known alias replacing it).
+func ZZC13AliasSize() {
+	nt := &zzDropNotifier{}
+	q := ZZMemQueue(4, nt)
+	A := zzrt.Uint32()
+	zzrt.Assume(A >= 12 && A <= 60)
+	zzrt.Observe("A", A)
+	srv := defaultServer()
+	srv.statsManager = newStatsManager(zzSubStats{})
+	conn := &zzConn{}
+	c, _ := srv.newClient(conn)
+	c.version = packets.Version5
+	c.queueStore = q
+	c.opts.ClientID = "c1"
+	c.opts.MaxInflight = 8
+	c.opts.ClientMaxPacketSize = A
+	c.opts.ClientTopicAliasMax = uint16(1 + zzrt.Choice(2))
+	c.topicAliasManager = ZZFifoAlias(srv.config, c.opts.ClientTopicAliasMax, "c1")
+	c.newPacketIDLimiter(8)
+	zzrt.Assert(q.Init(&queue.InitOptions{CleanStart: true, Version: packets.Version5, ReadBytesLimit: A, Notifier: nt}) == nil, "init-ok")
+	q.ReadInflight(8)
+	go c.writeLoop()
+	sizes := []int{1, 9, 17}
+	topics := []string{"t", "uu"}
+	n := 1 + zzrt.Choice(zzrt.Param("N"))
+	total := 0
+	for i := 0; i < n; i++ {
+		m := &gmqtt.Message{Topic: topics[zzrt.Choice(len(topics))], QoS: byte(zzrt.Choice(2)), Payload: make([]byte, sizes[zzrt.Choice(len(sizes))])}
+		zzrt.Assert(q.Add(&queue.Elem{MessageWithID: &queue.Publish{Message: m}}) == nil, "add-ok")
+		ids := c.pl.pollPacketIDs(8)
+		rest, err := c.pollNewMessages(ids)
+		zzrt.Assert(err == nil, "poll-ok")
+		c.pl.batchRelease(rest)
+		before := len(conn.written)
+		zzrt.Yield()
+		sz := len(conn.written) - before
+		zzrt.Observe("wire", sz)
+		zzrt.Assert(uint32(sz) <= A, "no-publish-on-the-wire-longer-than-the-declared-maximum")
+		total += sz
+	}
+	select {
+	case <-c.close:
+		zzrt.Fail("connection-stays-up")
+	default:
+	}
+	c.setError(nil)
+	zzrt.Yield()
+	zzrt.Cover("alias-size")
 }
